@@ -24,6 +24,9 @@ const (
 func checkC08(c *Ctx) {
 	c.R.NotCover = append(c.R.NotCover, "'last one per topic' and payload identity across histories", "the matching relation used for the retained lookup (C06)", "interleaving of a retained update with a concurrent new subscription beyond immutability of what was handed out")
 	c.useRules(ruleP8, ruleP5, ruleP9, ruleG6)
+	c.useRules(ruleP6)
+	c.retainedInsertStores()
+	c.endOfLevelsSignal()
 	c.R.Rule(ruleG5, "storage whose address is handed out of a critical section (the retained message returned by the lookup) is never mutated in place afterwards: no Decode/Set*/Encode-into/copy-into on a value loaded from the stored field; updates replace the stored object by a freshly allocated one.")
 	c.R.Rule(ruleG7, "a *PublishMessage obtained from the retained-store lookup is never the receiver of a mutator unless it is the result of Clone().")
 	c.R.Rule(ruleT4, "a trie node is deleted from its parent's map only under a condition that tests every content field of the node type (rnode: msg and rnodes; snode: subs and snodes; the parallel fields qos/buf are shadows).")
